@@ -14,6 +14,10 @@ open Netconan Netconan.Generated
 /-! ## `_is_mask` -/
 theorem is_mask_tie : Src.is_mask = Mask.isMask := rfl
 
+/-! ## `should_anonymize` (both classes) -/
+theorem should_anonymize_tie (nets : List Mask.Net) (x : Nat) : Src.should_anonymize nets x = Mask.shouldAnonymize nets x := rfl
+theorem should_anonymize6_tie (x : Nat) : Src.should_anonymize6 x = true := rfl
+
 /-! ## `_anonymize_bits`, `anonymize`, `_deanonymize_bits`, `deanonymize` -/
 
 theorem anonymize_bits_rev (h) (rb : List Bool) (c : IpCore.Cache) :
